@@ -221,9 +221,9 @@ def run(chk, build):
     g = gen.Gen(chk.seed * 1000003 + 5)
     n_rand = 300 if tier == "quick" else 10000
     for i in range(n_rand):
-        s = g.samples(depth=4)
+        s = g.family() if i % 4 == 1 else g.variants() if i % 4 == 3 else g.samples(depth=4)
         policy = g.r.choice([None, [("exact",)], [("percent", 0.5)], [("number", 2)], [("percent", 0.7), ("number", 3)],
-                             [("number", 1)], [("percent", 0.34)]])
+                             [("number", 1)], [("number", 10)], [("percent", 0.34)]])
         r = one_registry_case(s, policy, None)
         if r is None:
             continue
